@@ -198,6 +198,8 @@ pub struct Sim<'a> {
   tab_reads_done: usize,
   sends_done: usize,
   hw_failed: bool,
+  kbd_sabotaged: bool,
+  tab_sabotaged: bool,
   pub stats: SimStats,
   pub bytes: Option<&'a mut dyn ByteLayer>,
   pub byte_error: Option<String>,
@@ -209,7 +211,7 @@ impl<'a> Sim<'a> {
     reset_sim_slept_us();
     Sim { tape, cfg: case.cfg.clone(), kbd: case.kbd.iter().cloned().collect(), tab: if case.has_tablet { case.tab.iter().cloned().collect() } else { VecDeque::new() }, has_tablet: case.has_tablet,
       kbd_ready: VecDeque::new(), tab_ready: VecDeque::new(), kbd_notify: false, tab_notify: false, trace: vec![], fail_at: case.fail_at, calls: 0,
-      kbd_ended: false, tab_ended: false, kbd_end_at: case.kbd_end_at, tab_end_at: if case.has_tablet { case.tab_end_at } else { None }, extra_ticks: case.extra_ticks, interrupts: 0, in_drain: false, write_fault: if case.hybrid { case.write_fault } else { None }, read_fault: if case.hybrid { case.read_fault } else { None }, kbd_reads_done: 0, tab_reads_done: 0, sends_done: 0, hw_failed: false,
+      kbd_ended: false, tab_ended: false, kbd_end_at: case.kbd_end_at, tab_end_at: if case.has_tablet { case.tab_end_at } else { None }, extra_ticks: case.extra_ticks, interrupts: 0, in_drain: false, write_fault: if case.hybrid { case.write_fault } else { None }, read_fault: if case.hybrid { case.read_fault } else { None }, kbd_reads_done: 0, tab_reads_done: 0, sends_done: 0, hw_failed: false, kbd_sabotaged: false, tab_sabotaged: false,
       stats: SimStats::default(), bytes, byte_error: None }
   }
   fn now(&self) -> u64 { sim_now_us() }
@@ -229,6 +231,7 @@ impl<'a> Sim<'a> {
       if et == Some(t) && tt.map(|x| x >= t).unwrap_or(true) { self.tab_ended = true; self.tab_notify = true; self.stats.tab_unplugged += 1; continue; }
       if tk == Some(t) {
         let (_, e) = self.kbd.pop_front().unwrap();
+        if self.kbd_sabotaged { continue; } // the descriptor is dead: nothing more can be read from it
         if let Some(b) = self.bytes.as_mut() { b.push_kbd(&e, &mut self.tape); }
         self.kbd_ready.push_back(e); self.kbd_notify = true;
         if self.in_drain { self.stats.arrival_during_drain += 1; }
@@ -236,6 +239,7 @@ impl<'a> Sim<'a> {
       }
       if tt == Some(t) {
         let (_, on) = self.tab.pop_front().unwrap();
+        if self.tab_sabotaged { continue; }
         if let Some(b) = self.bytes.as_mut() { b.push_tab(on, &mut self.tape); }
         self.tab_ready.push_back(on); self.tab_notify = true;
         if self.in_drain { self.stats.arrival_during_drain += 1; }
@@ -388,16 +392,21 @@ impl<'a> VerifDriver for Sim<'a> {
     let kr = self.kbd_reads_done; self.kbd_reads_done += 1;
     if self.hw_failed { self.trace.push(Item::NextK { res: None, end: true, t_out: self.now() }); return Ok(VNext::End); }
     if let (Some((at, false)), true) = (self.read_fault, self.bytes.is_some()) {
-      if at == kr {
-        let b = self.bytes.as_mut().unwrap();
-        b.sabotage_reader(false);
-        self.hw_failed = true; self.stats.os_read_fault += 1; self.stats.io_error += 1;
-        self.trace.push(Item::Fail { what: "next_keyboard (OS-level read failure under the real driver)" });
-        return match b.raw_next_keyboard() {
-          Err(e) => Err(format!("{}: {}", INJECTED, e)),
-          Ok(other) => Ok(other),   // the failure was swallowed or turned into Busy/End
-        };
+      if at == kr && !self.kbd_sabotaged {
+        // from now on every read system call on the keyboard descriptor fails (EBADF); a reader may
+        // still hand out records it had already pulled out of the pipe
+        self.bytes.as_mut().unwrap().sabotage_reader(false);
+        self.kbd_sabotaged = true; self.stats.os_read_fault += 1; self.stats.io_error += 1;
       }
+    }
+    if self.kbd_sabotaged {
+      let b = self.bytes.as_mut().unwrap();
+      return match b.raw_next_keyboard() {
+        Err(e) => { self.hw_failed = true; self.trace.push(Item::Fail { what: "next_keyboard (OS-level read failure under the real driver)" }); Err(format!("{}: {}", INJECTED, e)) }
+        Ok(VNext::One(e)) if self.kbd_ready.front() == Some(&e) => { self.kbd_ready.pop_front(); self.trace.push(Item::NextK { res: Some(e.clone()), end: false, t_out: sim_now_us() }); Ok(VNext::One(e)) }
+        // Busy, End or an event that was never delivered although the descriptor is dead: the failure was hidden
+        Ok(other) => { self.hw_failed = true; self.trace.push(Item::Fail { what: "next_keyboard (OS-level read failure hidden by the driver)" }); Ok(other) }
+      };
     }
     let r = if !self.kbd_ready.is_empty() {
       let e = self.kbd_ready.pop_front().unwrap();
@@ -428,16 +437,18 @@ impl<'a> VerifDriver for Sim<'a> {
     let tr = self.tab_reads_done; self.tab_reads_done += 1;
     if self.hw_failed { self.trace.push(Item::NextT { res: None, end: true, t_out: self.now() }); return Ok(VNext::End); }
     if let (Some((at, true)), true) = (self.read_fault, self.bytes.is_some()) {
-      if at == tr {
-        let b = self.bytes.as_mut().unwrap();
-        b.sabotage_reader(true);
-        self.hw_failed = true; self.stats.os_read_fault += 1; self.stats.io_error += 1;
-        self.trace.push(Item::Fail { what: "next_tablet (OS-level read failure under the real driver)" });
-        return match b.raw_next_tablet() {
-          Err(e) => Err(format!("{}: {}", INJECTED, e)),
-          Ok(other) => Ok(other),
-        };
+      if at == tr && !self.tab_sabotaged {
+        self.bytes.as_mut().unwrap().sabotage_reader(true);
+        self.tab_sabotaged = true; self.stats.os_read_fault += 1; self.stats.io_error += 1;
       }
+    }
+    if self.tab_sabotaged {
+      let b = self.bytes.as_mut().unwrap();
+      return match b.raw_next_tablet() {
+        Err(e) => { self.hw_failed = true; self.trace.push(Item::Fail { what: "next_tablet (OS-level read failure under the real driver)" }); Err(format!("{}: {}", INJECTED, e)) }
+        Ok(VNext::One(on)) if self.tab_ready.front() == Some(&on) => { self.tab_ready.pop_front(); self.trace.push(Item::NextT { res: Some(on), end: false, t_out: sim_now_us() }); Ok(VNext::One(on)) }
+        Ok(other) => { self.hw_failed = true; self.trace.push(Item::Fail { what: "next_tablet (OS-level read failure hidden by the driver)" }); Ok(other) }
+      };
     }
     let r = if !self.tab_ready.is_empty() {
       let on = self.tab_ready.pop_front().unwrap();
